@@ -336,12 +336,18 @@ def multi_sdf(part, k, source):
     # file route
     d = tempfile.mkdtemp(prefix="c16m_", dir="/dev/shm" if os.path.isdir("/dev/shm") else None)
     try:
-        p = os.path.join(d, "multi.sdf")
-        open(p, "w").write(text)
-        got = Molecule.load(p)
-        got = got if isinstance(got, list) else [got]
-        if len(got) != k:
-            part.fail(key + ":file-count", "Molecule.load of %d record(s) (%s) yields %d molecules" % (k, source, len(got)), case)
+        for eol_name, eol in (("LF", "\n"), ("CRLF", "\r\n")):
+            p = os.path.join(d, "multi_%s.sdf" % eol_name)
+            open(p, "w", newline="").write(text.replace("\n", eol))
+            got = Molecule.load(p)
+            got = got if isinstance(got, list) else [got]
+            if len(got) != k:
+                part.fail(key + ":file-count:" + eol_name, "Molecule.load of a file with %d record(s) (%s, %s line endings) yields %d molecules" % (k, source, eol_name, len(got)), case)
+            else:
+                for i, (b, (zs, pos)) in enumerate(zip(got, mols)):
+                    if [int(z) for z in b.atomic_numbers] != zs or np.abs(np.asarray(b.positions) - pos).max() > 5.0e-5 * (1 + 1e-6):
+                        part.fail(key + ":file-content:" + eol_name, "record %d of a %d-record file (%s, %s line endings) read back with other elements/coordinates" % (i, k, source, eol_name), case)
+                        break
     except Exception as e:
         part.fail(key + ":file-raise", "Molecule.load of %d record(s) (%s) raised %s" % (k, source, type(e).__name__), case)
     finally:
@@ -358,6 +364,8 @@ def big_sdf(part, d):
     """
     from chmpy.core.molecule import Molecule
 
+    crlf = d >= 10                # the same files with DOS line endings (files written on Windows, MDL downloads)
+    d = d % 10
     targets = [2 ** k for k in range(12, 18)]
     text = ""
     mols = []
@@ -397,14 +405,14 @@ def big_sdf(part, d):
         pos = positions(2, "generic", False)
         text += sdfcols.write_record([ELEMENTS[z - 1][0] for z in zs], pos, title="tail%d" % extra)
         mols.append((zs, pos))
-    case = {"kind": "bigsdf", "d": d}
+    case = {"kind": "bigsdf", "d": d + (10 if crlf else 0)}
     part.ev()
     part.tr()
     part.trace()
     tmp = tempfile.mkdtemp(prefix="c16b_", dir="/dev/shm" if os.path.isdir("/dev/shm") else None)
     try:
         pth = os.path.join(tmp, "big.sdf")
-        open(pth, "w").write(text)
+        open(pth, "w", newline="").write(text.replace("\n", "\r\n") if crlf else text)
         got = Molecule.load(pth)
         got = got if isinstance(got, list) else [got]
     except Exception as e:
@@ -447,7 +455,7 @@ def run(ctx):
     for k in (1, 2, 3):
         for source in ("writer", "reference"):
             jobs.append(("multi", k, source))
-    for d in range(0, 6):
+    for d in (0, 1, 2, 3, 4, 5, 10, 12):
         jobs.append(("bigsdf", d))
     for fmt in ("xyz", "sdf"):
         for n in (3, 12):
